@@ -276,13 +276,19 @@ def setup():
 
 
 # ------------------------------------------------------------------ trees
+LEAVES = [1, 'leaf', None, 2.5, 'a longer leaf string', True, 1, 'leaf', None, 2.5,
+          'words that go on and on so that the string has to be split over several lines ' * 2,
+          'tab\t nul\x00 quote\' "dq" backslash\\ sn\u00f6w \u2603 {braces} %s', '', -0.0, 10 ** 30, -7, float('inf'),
+          'line one\nline two\n\nline four']
+
+
 def gen_tree(r, budget, depth=0, pool=None):
     """Returns a JSON tree spec. budget: [remaining object nodes]."""
     k = r.random()
     if pool is not None and pool[0] > 0 and k < 0.12:
         node = ['ref', r.randrange(pool[0])]
     elif depth > 4 or k < 0.18 or (budget[0] <= 0 and k < 0.75):
-        node = ['leaf', r.choice([1, 'leaf', None, 2.5, 'a longer leaf string', True])]
+        node = ['leaf', r.choice(LEAVES)]
     elif k < 0.70 and budget[0] > 0:
         budget[0] -= 1
         kind = r.choice(['NT', 'NT', 'NP', 'NP', 'NPred', 'NName', 'NSub', 'NKw', 'NRepr'])
